@@ -122,6 +122,23 @@ on_alarm (int sig)
 	_exit (3) ;
 }
 
+/* The per-operation limit is a limit on CPU time (ITIMER_PROF: user + system time of this process, all threads), so that a loaded machine
+** does not turn a slow script into a TIMEOUT; a wall-clock alarm twelve times as long stays behind it for a call that blocks without computing. */
+static void
+sfh_arm (int seconds)
+{	struct itimerval it ;
+	memset (&it, 0, sizeof (it)) ;
+	it.it_value.tv_sec = seconds ;
+	setitimer (ITIMER_PROF, &it, NULL) ;
+	alarm (seconds > 0 ? 12 * (unsigned) seconds : 0) ;
+}
+
+static void
+sfh_sig (void)
+{	signal (SIGALRM, on_alarm) ;
+	signal (SIGPROF, on_alarm) ;
+}
+
 static void
 scratch_init (void)
 {	const char *base = getenv ("SFH_SCRATCH") ;
@@ -222,7 +239,7 @@ op_open (char **tok, int ntok)
 		{	sf_count_t done = 0 ;
 			close (pfd [0]) ;
 			signal (SIGPIPE, SIG_DFL) ;
-			alarm (0) ;
+			sfh_arm (0) ;
 			while (done < s->len)
 			{	sf_count_t want = s->len - done ;
 				ssize_t r ;
@@ -547,7 +564,7 @@ run_line (char *line)
 	char *p = strtok (line, " \t\r\n") ;
 	while (p && ntok < 64) { tok [ntok ++] = p ; p = strtok (NULL, " \t\r\n") ; }
 	if (ntok == 0 || tok [0][0] == '#') return 0 ;
-	alarm (op_timeout) ;
+	sfh_arm (op_timeout) ;
 	if (!strcmp (tok [0], "open") && ntok >= 4) op_open (tok, ntok) ;
 	else if (!strcmp (tok [0], "w") && ntok >= 5) op_write (tok, ntok) ;
 	else if (!strcmp (tok [0], "r") && ntok >= 5) op_read (tok, ntok) ;
@@ -603,7 +620,7 @@ run_line (char *line)
 		}
 	else
 		printf ("bad-op\n") ;
-	alarm (0) ;
+	sfh_arm (0) ;
 	fflush (stdout) ;
 	return 0 ;
 }
@@ -611,7 +628,7 @@ run_line (char *line)
 int
 cmd_script (FILE *in)
 {	char *line = NULL ; size_t cap = 0 ;
-	signal (SIGALRM, on_alarm) ;
+	sfh_sig () ;
 	while (getline (&line, &cap, in) > 0)
 		run_line (line) ;
 	free (line) ;
@@ -650,7 +667,7 @@ cmd_batch (FILE *in, int timeout_s)
 				printf ("== %s\n", name) ; fflush (stdout) ;
 				pid = fork () ;
 				if (pid == 0)
-				{	signal (SIGALRM, on_alarm) ;
+				{	sfh_sig () ;
 					for (k = 0 ; k < nlines ; k++) run_line (lines [k]) ;
 					fflush (stdout) ;
 					scratch_cleanup () ;
